@@ -110,6 +110,11 @@ def main(run):
         if n <= 4:
             for s in (non_min if n == 3 else run.rng.sample(non_min, 2 if quick else 5)):
                 run.prove(f"undo.sam_apx_1[n={n},s={s}]", S.sc_reveal_undo, {"n": n, "computer": "sam_apx_1", "s": s})
+    # the SAM computer for EVERY repetition count: relational statement over the cut loop
+    cut = S.sam_cut_package()
+    for n in (3, 4):
+        for mode in ("iter", "exit"):
+            run.prove(f"stale_free.sam_all_counts.{mode}[n={n}]", S.sc_sam_stale_relational, {"n": n, "mode": mode}, pkg=cut)
     # environment level (4): step then unstep restores state, reward, steps_taken and the table
     from props import env_scenarios as E
     for n in (3,) if quick else (3, 4):
@@ -140,6 +145,34 @@ def main(run):
                 continue
             e, f = walk_check(run, n, comp, 4 if quick else 25, 12)
             rows.append({"computer": comp, "n": n, "evaluations": e, "failures": f})
+    # history-free on instances where the SAM repetitions matter: the table reached through a reveal path on ONE object
+    # equals the table of a fresh object with the same knowledge
+    import numpy as np
+    from pyvc.mode import native_pkg
+    from rt import instances
+    P = native_pkg()
+    game_m, bounds, co = P.mod("game"), P.mod("bounds"), P.mod("coalitions")
+    for n, v, K, R in instances.repetition_sensitive(run.rng, 2 if quick else 8):
+        for comp in ("sam_apx_1", "sam_apx_10"):
+            g = game_m.IncompleteCooperativeGame(n, bounds.BOUNDS[comp])
+            g.set_known_values([v[c] for c in K], [co.Coalition(c) for c in K])
+            g.compute_bounds()
+            known = list(K)
+            for s in R:
+                g.reveal_value(v[s], co.Coalition(s))
+                g.compute_bounds()
+                known.append(s)
+                h = game_m.IncompleteCooperativeGame(n, bounds.BOUNDS[comp])
+                ks = sorted(known)
+                h.set_known_values([v[c] for c in ks], [co.Coalition(c) for c in ks])
+                h.compute_bounds()
+                run.native_evals += 1
+                run.native_distinct.add(("sens", comp, n, tuple(ks)))
+                if not np.array_equal(g._values, h._values):
+                    run._report_violation(f"sensitive.{comp}[n={n}]/history_free", S.sc_stale_independent, {"n": n, "computer": comp},
+                                          {"v": v, "known": ks, "revealed_last": s}, True,
+                                          detail={"layer": "bounded", "kind": "table after a reveal path differs from the table of a fresh object with the same knowledge"})
+                    break
     run.bounded.append({"label": "random operation walks on the real package (bit-equality of tables)", "rows": rows,
                         "bound": "seeded walks of 12 operations incl. stale-bound injection, two histories per target knowledge, all registered computers"})
     return run.finish(
